@@ -41,8 +41,12 @@ func Yield(what string) {
 
 // ---- tracked goroutines -----------------------------------------------------------------------
 
-var spawned sync.WaitGroup
-var spawnCount int64
+var (
+	idleMu     sync.Mutex
+	idleCond   = sync.NewCond(&idleMu)
+	active     int64
+	spawnCount int64
+)
 
 func spawn(name string, f func()) {
 	atomic.AddInt64(&spawnCount, 1)
@@ -50,9 +54,18 @@ func spawn(name string, f func()) {
 		h.Spawn(name, f)
 		return
 	}
-	spawned.Add(1)
+	idleMu.Lock()
+	active++
+	idleMu.Unlock()
 	go func() {
-		defer spawned.Done()
+		defer func() {
+			idleMu.Lock()
+			active--
+			if active == 0 {
+				idleCond.Broadcast()
+			}
+			idleMu.Unlock()
+		}()
 		f()
 	}()
 }
@@ -67,8 +80,17 @@ func Go1[A any](f func(A), a A) { spawn("go", func() { f(a) }) }
 // Go2 replaces `go f(a, b)`.
 func Go2[A, B any](f func(A, B), a A, b B) { spawn("go", func() { f(a, b) }) }
 
-// WaitIdle blocks until every goroutine spawned through this package (outside a scheduler) has returned.
-func WaitIdle() { spawned.Wait() }
+// WaitIdle blocks until a moment at which no goroutine spawned through this package (outside a
+// scheduler) is running. A goroutine increments the count for a child before it finishes itself, so
+// observing zero after one's own transaction returned means all of its (transitive) spawns are done;
+// waiting for other workers' short-lived goroutines as well is harmless.
+func WaitIdle() {
+	idleMu.Lock()
+	for active != 0 {
+		idleCond.Wait()
+	}
+	idleMu.Unlock()
+}
 
 // SpawnCount is the number of goroutines spawned so far (for evidence).
 func SpawnCount() int64 { return atomic.LoadInt64(&spawnCount) }
